@@ -450,6 +450,40 @@ def py_task_control_required(tier, seed):
     return part.d
 
 
+def long_gap_task(tier, seed):
+    """'A tick without readings never changes what later ticks return' for output-only ticks that span thousands of
+    maximum steps (a long sensor dropout): outside the K-step bound of the solver clauses, replayed on the real Python
+    runtime with a call-recording stand-in filter.  Two managed filters get the same history except that one of them
+    is additionally asked for its estimate far ahead (and far behind) first; every later call sequence must be identical."""
+    from formak import runtime
+
+    from .c10 import RecordingFilter
+
+    part = Part()
+    part.program("runtime.ManagedFilter")
+    part.fn("runtime.ManagedFilter.tick", "runtime.ManagedFilter._process_model")
+    cases = [(0.1, 600.5), (0.01, 75.25), (0.1, -550.25)] + ([] if tier == "quick" else [(0.05, 2000.0), (0.001, 30.5), (0.25, 5000.125)])
+    for md, gap in cases:
+        logs = []
+        for extra in (False, True):
+            f = RecordingFilter(md)
+            mf = runtime.ManagedFilter(f, 1.0, "s", "P")
+            if extra:
+                mf.tick(1.0 + gap)
+            n0 = len(f.dts)
+            mf.tick(4.0, readings=[runtime.StampedReading(3.25, "a", v=1.0)])
+            mf.tick(4.5)
+            mf.tick(5.0, readings=[runtime.StampedReading(4.75, "a", v=2.0)])
+            logs.append((list(f.dts[n0:]), float(mf.current_time)))
+        key = f"py/long-output-only-tick/max_dt={md}/gap={gap}"
+        same = logs[0] == logs[1]
+        part.record(Q("unsat" if same else "sat", None, 0.0, ""), f"{key}: an output-only tick spanning {abs(gap) / md:.0f} steps does not change the later call sequence or the held time (concrete replay)")
+        if not same:
+            path = write_replay(PID, {"key": key, "info": {"kind": "py-long-gap", "max_dt": md, "gap": gap}, "inputs": {}, "without": str(logs[0])[:600], "with": str(logs[1])[:600]})
+            part.violation(key, f"Python runtime: after an output-only tick {gap} s away (max_dt={md}) later ticks issue a different call sequence / hold a different time: {str(logs[1])[:200]} vs {str(logs[0])[:200]}", path)
+    return part.d
+
+
 def _dispatch(fn, args):
     return fn(*args)
 
@@ -479,6 +513,7 @@ def run(tier, seed):
     from . import cfgrb
 
     tasks += [(cfgrb.task, (PID, *c, tier, seed)) for c in cfgrb.combos(tier)]
+    tasks.append((long_gap_task, (tier, seed)))
     for d in pmap(_dispatch, tasks):
         rep.merge(d)
     rep.bounds = {"readings_per_tick": "0..2 (quick) / 0..3 (thorough)", "K_full_steps_per_propagation": "1-2 (quick) / 1-3 (thorough)", "timestamps": "all symbolic in [-100, 100], any order", "max_dt": MAX_DT, "histories": "held (time, state, covariance) symbolic: one tick from an arbitrary held state"}
@@ -499,6 +534,11 @@ def replay(path):
 
         return cfgrb.replay(PID, r["info"])
     info = r["info"]
+    if info["kind"] == "py-long-gap":
+        d = long_gap_task("thorough", 0)
+        print([v["what"][:200] for v in d["violations"]])
+        print("REPRODUCED" if d["violations"] else "not reproduced")
+        return 1 if d["violations"] else 0
     if info["kind"] == "py-seq":
         differs, got, want = float_sequence_differs(r["inputs"], [tuple(k_) for k_ in info["ticks"]], info["with_control"], info.get("rejects"))
         print("got ", got)
